@@ -778,6 +778,10 @@ func (db *RockDB) GetRange(key []byte, start int64, end int64) ([]byte, error) {
 
 	valLen := int64(len(value))
 
+	if start < 0 && end < 0 && start > end {
+		// an empty range, whatever the clamping below would make of it
+		return nil, nil
+	}
 	start, end = getRange(start, end, valLen)
 
 	if start > end {
